@@ -72,7 +72,7 @@ type Check struct {
 
 var registry = map[string]*Check{}
 
-func Register(c *Check) { registry[c.ID] = c }
+func Register(c *Check)       { registry[c.ID] = c }
 func Lookup(id string) *Check { return registry[id] }
 func IDs() []string {
 	var s []string
@@ -102,24 +102,24 @@ func (v *Violation) Sig() string {
 
 // WorkerResult is what a worker writes for the parent.
 type WorkerResult struct {
-	Shard        int              `json:"shard"`
-	Done         bool             `json:"done"`
-	Evaluations  int64            `json:"evaluations"`
-	Distinct     int64            `json:"distinct"`
-	Nontrivial   int64            `json:"nontrivial"`
-	Counters     map[string]int64 `json:"counters"`
-	Outcomes     map[string]int64 `json:"outcomes"`
-	Samples      []any            `json:"samples"`
-	Violations   []*Violation     `json:"violations"`
-	Unstable     []*Violation     `json:"unstable"`
-	ViolationsN  int64            `json:"violations_n"`
-	CapsHit      []string         `json:"caps_hit"`
-	Bounds       map[string]any   `json:"bounds"`
-	DeadlineHit  bool             `json:"deadline_hit"`
-	HungKey      string           `json:"hung_key,omitempty"`
-	HungSub      string           `json:"hung_sub,omitempty"`
-	HungCase     json.RawMessage  `json:"hung_case,omitempty"`
-	InfraErrors  []string         `json:"infra_errors"`
+	Shard       int              `json:"shard"`
+	Done        bool             `json:"done"`
+	Evaluations int64            `json:"evaluations"`
+	Distinct    int64            `json:"distinct"`
+	Nontrivial  int64            `json:"nontrivial"`
+	Counters    map[string]int64 `json:"counters"`
+	Outcomes    map[string]int64 `json:"outcomes"`
+	Samples     []any            `json:"samples"`
+	Violations  []*Violation     `json:"violations"`
+	Unstable    []*Violation     `json:"unstable"`
+	ViolationsN int64            `json:"violations_n"`
+	CapsHit     []string         `json:"caps_hit"`
+	Bounds      map[string]any   `json:"bounds"`
+	DeadlineHit bool             `json:"deadline_hit"`
+	HungKey     string           `json:"hung_key,omitempty"`
+	HungSub     string           `json:"hung_sub,omitempty"`
+	HungCase    json.RawMessage  `json:"hung_case,omitempty"`
+	InfraErrors []string         `json:"infra_errors"`
 }
 
 // Ctx is the per-worker context handed to Check.Run.
@@ -167,10 +167,10 @@ func (c *Ctx) Expired() bool {
 	return false
 }
 
-func (c *Ctx) Count(name string, n int64)   { c.res.Counters[name] += n }
-func (c *Ctx) Outcome(class string)         { c.res.Outcomes[class]++ }
-func (c *Ctx) Cap(what string)              { c.res.CapsHit = append(c.res.CapsHit, what) }
-func (c *Ctx) Bound(name string, v any)     { c.res.Bounds[name] = v }
+func (c *Ctx) Count(name string, n int64) { c.res.Counters[name] += n }
+func (c *Ctx) Outcome(class string)       { c.res.Outcomes[class]++ }
+func (c *Ctx) Cap(what string)            { c.res.CapsHit = append(c.res.CapsHit, what) }
+func (c *Ctx) Bound(name string, v any)   { c.res.Bounds[name] = v }
 func (c *Ctx) Infra(format string, a ...any) {
 	if len(c.res.InfraErrors) < 20 {
 		c.res.InfraErrors = append(c.res.InfraErrors, fmt.Sprintf(format, a...))
